@@ -61,12 +61,26 @@ class DecisionOb(SmtOb):
         e1, e2 = _affine(c1, ps), _affine(c2, ps)
         out = {"eq": bool(are_shape_components_equal(e1, e2)), "eq_rev": bool(are_shape_components_equal(e2, e1)),
                "shapes": bool(are_shapes_equal((e1, 3), (e2, 3)))}
+        # sign decisions ("True iff it can be PROVEN": a True must hold for every non-negative size)
+        from pytato.utils import _is_non_negative, _is_non_positive
+        try:
+            out["nonneg"], out["nonpos"] = bool(_is_non_negative(e1)), bool(_is_non_positive(e1))
+        except Exception as e:  # noqa: BLE001
+            out["sign_exc"] = type(e).__name__
         try:
             x = pt.make_placeholder("x", (e1,), F64)
             y = pt.make_placeholder("y", (e2,), F64)
         except ValueError:
             out["placeholders"] = False      # negative constant length: rejected at construction
             return out
+        # integer indices into an axis of symbolic length: accepted only if in bounds for EVERY size
+        out["int_index_accepted"] = []
+        for k in (-3, -2, -1, 0, 1, 2):
+            try:
+                x[k]
+                out["int_index_accepted"].append(k)
+            except (IndexError, NotImplementedError, ValueError):
+                pass
         try:
             pt.stack([x, y])
             out["stack"] = True
@@ -116,14 +130,26 @@ class DecisionOb(SmtOb):
                 if str(r) not in ("sat", "unsat"):
                     raise RuntimeError("z3 unknown")
                 return str(r) == "unsat"
+            real = self._decide_real(c1, c2)
             try:
                 eq = always(z1 == z2)
                 one1, one2 = always(z1 == 1), always(z2 == 1)
+                sign_bad = None
+                if real.get("nonneg") and not always(z1 >= 0):
+                    sign_bad = "_is_non_negative answered True although the expression is negative for some size"
+                elif real.get("nonpos") and not always(z1 <= 0):
+                    sign_bad = "_is_non_positive answered True although the expression is positive for some size"
+                else:
+                    for k in real.get("int_index_accepted", ()):
+                        if not always(z3.And(-z1 <= k, k < z1)):
+                            sign_bad = f"integer index {k} accepted on an axis whose length makes it out of bounds for some size"
+                            break
             except RuntimeError as e:
                 return {"status": "inconclusive", "reason": str(e), "solver_queries": nq, "solver_s": round(ts, 3)}
-            real = self._decide_real(c1, c2)
-            bad = None
-            if real["eq"] != eq or real["eq_rev"] != eq or real["shapes"] != eq:
+            bad = sign_bad
+            if bad:
+                pass
+            elif real["eq"] != eq or real["eq_rev"] != eq or real["shapes"] != eq:
                 bad = "are_shape_components_equal / are_shapes_equal"
             elif "stack" not in real:
                 pass
@@ -154,6 +180,15 @@ class DecisionOb(SmtOb):
                 differ = {"sizes": list(vals), "e1": v1, "e2": v2}
                 break
         truth_eq = differ is None
+        what = args.get("what") or ""
+        if "_is_non_" in what or "integer index" in what:
+            # concrete witness for a sign / index decision: a size at which the claimed fact is false
+            for vals in itertools.product(range(0, 5), repeat=self.nparams):
+                v1 = c1[0] + sum(c * v for c, v in zip(c1[1:], vals))
+                if (real.get("nonneg") and v1 < 0) or (real.get("nonpos") and v1 > 0) or any(
+                        not (-v1 <= k < v1) for k in real.get("int_index_accepted", ())):
+                    return True, {"real_code": real, "witness": {"sizes": list(vals), "e1": v1}, "what": what}
+            return False, {"real_code": real, "why": "no size in 0..4 falsifies the decision", "what": what}
         bad = real["eq"] != truth_eq or real.get("stack", truth_eq) != truth_eq
         return bad or bool(args.get("what")), {"real_code": real, "witness": differ, "what": args.get("what")}
 
